@@ -99,27 +99,18 @@ from vgi_rpc.utils import IpcValidation, ValidatedReader, new_ipc_stream
 # ---------------------------------------------------------------------------
 
 
-_ACCESS_LOG_ERROR_MESSAGE_LIMIT = 500
-"""Cap for ``error_message`` fields surfaced via the access log.
-
-Long exception messages (typically with embedded tracebacks or repeated
-context) bloat each JSONL record without adding signal — the full traceback
-is logged separately by ``_log_method_error``.  The cap matches the
-historical inline truncation used at every dispatch site.
-"""
-
-
-def _truncate_error_message(exc: BaseException | None, limit: int = _ACCESS_LOG_ERROR_MESSAGE_LIMIT) -> str:
+def _truncate_error_message(exc: BaseException | None) -> str:
     """Render an exception's message for the access-log ``error_message`` field.
 
-    Returns ``""`` for ``None`` (the no-error case).  Otherwise returns
-    ``str(exc)`` truncated to ``limit`` characters.  Centralises the
-    historically duplicated ``str(exc)[:500]`` pattern across the unary
-    and stream dispatch shells so the truncation policy is one knob.
+    Returns ``""`` for ``None`` (the no-error case), otherwise ``str(exc)``
+    in full: ``docs/access-log-spec.md`` requires the complete server-side
+    message ("No length cap ... MUST NOT be truncated"); the record-size cap in
+    the formatter is what bounds a pathological record.  (The name is kept
+    from the time this helper cut the message at 500 characters.)
     """
     if exc is None:
         return ""
-    return str(exc)[:limit]
+    return str(exc)
 
 
 def _log_method_error(protocol_name: str, method_name: str, server_id: str, exc: BaseException) -> str:
@@ -263,7 +254,11 @@ def _emit_access_log(
         }
         if cancelled:
             extra["cancelled"] = True
-        if error_message:
+        if status == "error":
+            # Required and non-empty for every error record, whatever the
+            # exception text (``raise ValueError("")`` has none).
+            extra["error_message"] = error_message or error_type or "error"
+        elif error_message:
             extra["error_message"] = error_message
         if server_version:
             extra["server_version"] = server_version
